@@ -81,6 +81,49 @@ theorem add_cons_neq (g : GS) (c : Nat) : eqG (g.addCons c) g = false := by
 theorem edit_either_side (g h : GS) (hne : eqG g h = false) : eqG h g = false := by
   rw [Adsg.eqG_symm]; exact hne
 
+/-- Losing a start node or a constraint also makes the two sides unequal. -/
+theorem remove_start_neq (g : GS) (v : Nat) (h : v ∈ g.start) : eqG (g.removeStart v) g = false := by
+  refine eqG_false_of_not _ _ (fun h' => ?_)
+  have := h'.2.2.1.length_eq
+  have hpos := List.length_pos_of_mem h
+  simp [GS.removeStart, List.length_erase_of_mem h] at this
+  omega
+
+theorem remove_cons_neq (g : GS) (c : Nat) (h : c ∈ g.cons) : eqG (g.removeCons c) g = false := by
+  refine eqG_false_of_not _ _ (fun h' => ?_)
+  have := congrArg List.length h'.2.2.2
+  have hpos := List.length_pos_of_mem h
+  simp [GS.removeCons, List.length_erase_of_mem h] at this
+  omega
+
+/-- Undoing an edit restores equality (identity is a function of the current structure only, not of
+    the history of edits): adding and removing the same edge, or a fresh isolated node. -/
+theorem add_remove_edge_eq (g : GS) (e : Nat × Nat × Nat) : eqG ((g.addEdge e).removeEdge e) g = true := by
+  have : (g.addEdge e).removeEdge e = g := by
+    cases g; simp [GS.addEdge, GS.removeEdge]
+  rw [this]; exact eqG_refl g
+
+theorem add_remove_node_eq (g : GS) (v : Nat) (hfresh : ∀ e ∈ g.edges, e.1 ≠ v ∧ e.2.1 ≠ v) :
+    eqG ((g.addNode v).removeNode v) g = true := by
+  have hf : g.edges.filter (fun e => e.1 != v && e.2.1 != v) = g.edges := by
+    rw [List.filter_eq_self]
+    intro e he
+    have := hfresh e he
+    simp [this.1, this.2]
+  have : (g.addNode v).removeNode v = g := by
+    cases g
+    simp only [GS.addNode, GS.removeNode] at hf ⊢
+    simp [hf]
+  rw [this]; exact eqG_refl g
+
+/-- Two *different* graphs never become equal by the same edit applied to both … unless they were
+    equal already: adding the same node to both sides preserves (in)equality. -/
+theorem add_node_both (g h : GS) (v : Nat) : eqG (g.addNode v) (h.addNode v) = eqG g h := by
+  have hiff : eqG (g.addNode v) (h.addNode v) = true ↔ eqG g h = true := by
+    rw [Adsg.eqG_iff_perm, Adsg.eqG_iff_perm]
+    simp [GS.addNode, List.perm_cons]
+  cases h1 : eqG (g.addNode v) (h.addNode v) <;> cases h2 : eqG g h <;> simp_all
+
 /-! Non-vacuity -/
 def exG : GS := { nodes := [3, 1, 2], edges := [(1, 2, 0), (3, 1, 0), (1, 2, 1)], start := [3], cons := [0] }
 example : eqG exG { exG with nodes := [1, 2, 3], edges := [(3, 1, 0), (1, 2, 1), (1, 2, 0)] } = true := by decide
